@@ -508,6 +508,8 @@ def generic_function_replay(qualname, model):
         sig = inspect.signature(obj)
     except Exception:  # noqa: BLE001
         return None
+    # module-level constants of the function's module (pattern constants named by clauses); never shadowing the specification vocabulary
+    modglobals = {k: v for k, v in vars(importlib.import_module(modname)).items() if k.isupper() and isinstance(v, (bytes, str, int))}
     args = {}
     for pname, prm in sig.parameters.items():
         if pname in model:
@@ -533,7 +535,7 @@ def generic_function_replay(qualname, model):
     if c is not None:
         for nm, clause in c.ensures.items():
             try:
-                ok = rt.eval_clause(clause, dict(args, result=res))
+                ok = rt.eval_clause(clause, dict(modglobals, **args, result=res))
             except Exception:  # noqa: BLE001
                 continue  # clause uses ghost state / heap vocabulary that has no run-time meaning
             if not ok:
